@@ -871,7 +871,10 @@ fn fam_frozen<T: Payload>(c: &Case, cx: &mut Ctx) -> Outcome {
             if !sc.wait_registered(w, 0, 1) {
                 return sc.finish(cx.lin_budget, &mut cx.obs, &mut cx.samples, &mut cx.lin_states);
             }
-            fp::arm(2, TERM_ENTER);
+            // (its handle is cloned now: cloning needs the lock the closer is about to be frozen in)
+            let dgo = Arc::new(AtomicBool::new(false));
+            let dw = sc.spawn_gated(Side::R, c.d & 2 == 2, vec![Op::Drain], Some(dgo.clone()));
+            fp::arm(3, TERM_ENTER);
             let p = sc.spawn(Side::S, false, vec![Op::CloseS]);
             if !sc.wait_arrived(p, TERM_ENTER) {
                 return sc.finish(cx.lin_budget, &mut cx.obs, &mut cx.samples, &mut cx.lin_states);
@@ -883,8 +886,18 @@ fn fam_frozen<T: Payload>(c: &Case, cx: &mut Ctx) -> Outcome {
                 sc.expect(matches!(r, Res::False | Res::NoneV), "C14", || format!("{:?} while another thread is stalled inside the channel lock must report 'not done', got {:?}", op, r));
                 cell(cx, format!("frozen/inside-lock@TERM_ENTER/{}", opn(&op)));
             }
+            // drain_into is not a realtime variant: it has to look at the channel, so it cannot return while the
+            // lock is held by the frozen thread (only this direction is judged: returning is the violation)
+            dgo.store(true, Ordering::Release);
+            if !cfg!(miri) {
+                std::thread::sleep(Duration::from_millis(4));
+            }
+            let early = sc.worker_finished(dw);
+            sc.expect(!early, "C19", || "drain_into returned while another thread was frozen inside the channel lock: it cannot have looked at the channel".to_string());
+            cell(cx, "frozen/inside-lock@TERM_ENTER/Drain-waits".to_string());
             sc.release(p, TERM_ENTER);
             sc.join(p);
+            sc.join(dw);
             sc.join(w);
             pname = "TERM_ENTER(in lock)";
         }
@@ -898,7 +911,9 @@ fn fam_frozen<T: Payload>(c: &Case, cx: &mut Ctx) -> Outcome {
                 sc.inconclusive = Some("needs a buffer".into());
                 return sc.finish(cx.lin_budget, &mut cx.obs, &mut cx.samples, &mut cx.lin_states);
             }
-            fp::arm(2, RECV_ENTER);
+            let dgo = Arc::new(AtomicBool::new(false));
+            let dw = sc.spawn_gated(Side::R, c.d & 2 == 2, vec![Op::Drain], Some(dgo.clone()));
+            fp::arm(3, RECV_ENTER);
             // refill (recv from a full buffer) or drain: both read the blocked sender under the lock
             let p = sc.spawn(Side::R, false, vec![if c.b % 4 < 2 { Op::Drain } else { Op::TryRecv }]);
             if !sc.wait_arrived(p, RECV_ENTER) {
@@ -911,8 +926,16 @@ fn fam_frozen<T: Payload>(c: &Case, cx: &mut Ctx) -> Outcome {
                 sc.expect(matches!(r, Res::False | Res::NoneV), "C14", || format!("{:?} while another thread is stalled inside the channel lock must report 'not done', got {:?}", op, r));
                 cell(cx, format!("frozen/inside-lock@RECV_ENTER/{}", opn(&op)));
             }
+            dgo.store(true, Ordering::Release);
+            if !cfg!(miri) {
+                std::thread::sleep(Duration::from_millis(4));
+            }
+            let early = sc.worker_finished(dw);
+            sc.expect(!early, "C19", || "drain_into returned while another thread was frozen inside the channel lock: it cannot have looked at the channel".to_string());
+            cell(cx, "frozen/inside-lock@RECV_ENTER/Drain-waits".to_string());
             sc.release(p, RECV_ENTER);
             sc.join(p);
+            sc.join(dw);
             sc.join(w);
             for _ in 0..3 {
                 sc.mexec(Op::TryRecv);
